@@ -349,6 +349,9 @@ void TasmanianFourierTransform::fast_fourier_transform(std::vector<std::vector<s
     int num_total = 1;
     for(auto n: num_points) num_total *= n;
     std::vector<int> cumulative_points(num_dimensions);
+    // read the number of outputs before the parallel loops: each 1-D transform assigns to the entries of data that it owns,
+    // reading data[0].size() from the other transforms at the same time is a data race
+    int num_outputs = (data.empty()) ? 0 : (int) data[0].size();
     for(int k=0; k<num_dimensions; k++){
         // split the data into vectors of 1-D transforms
         std::vector<std::vector<int>> maps1d(num_total / num_points[k]); // total number of 1-D transforms
@@ -373,12 +376,12 @@ void TasmanianFourierTransform::fast_fourier_transform(std::vector<std::vector<s
 
         #pragma omp parallel for // perform the 1D transforms
         for(int i=0; i<(int) maps1d.size(); i++){
-            fast_fourier_transform1D(data, maps1d[i]);
+            fast_fourier_transform1D(data, maps1d[i], num_outputs);
         }
     }
 }
 
-void TasmanianFourierTransform::fast_fourier_transform1D(std::vector<std::vector<std::complex<double>>> &data, std::vector<int> &indexes){
+void TasmanianFourierTransform::fast_fourier_transform1D(std::vector<std::vector<std::complex<double>>> &data, std::vector<int> &indexes, int num_outputs){
     //
     // Given vector x_n with size N, the Fourier transform F_k is defined as: F_k = \sum_{n=0}^{N-1} \exp(- 2 \pi k n / N) x_n
     // Assuming that N = 3^l for some l, we can sub-divide the transform into strips of 3
@@ -390,8 +393,7 @@ void TasmanianFourierTransform::fast_fourier_transform1D(std::vector<std::vector
     // The terms \exp(-2 \pi k / N) \exp(-2 \pi j / 3), and \exp(-4 \pi k / N) \exp(-4 \pi j / 3) are the twiddle factors
     // The procedure is recursive splitting the transform into small sets, all the way to size 3
     //
-    int num_outputs = (int) data[0].size(); // get the problem dimensions, num outputs and num entries for the 1D transform
-    int num_entries = (int) indexes.size(); // the size of the 1D problem, i.e., N
+    int num_entries = (int) indexes.size(); // the size of the 1D problem, i.e., N (num_outputs is the size of each entry of data)
     if (num_entries == 1) return; // nothing to do for size 1
     // a copy of the data is needed to swap back and forth, thus we make two copies and swap between them
     std::vector<std::vector<std::complex<double>>> V(num_entries);
